@@ -65,6 +65,7 @@ static void program_case(unsigned prog, int len, int big_ok) {
     cnt("calls", 1);
     if (res.skipped) continue;
     if (res.canary_bad) viol("canary", "%s: %s", o->name, res.msg);
+    if (res.fpenv_changed) viol("fpenv", "%s [N=%" PRIu64 "]: %s", o->name, e->N, res.msg);
     // cache-invalidation transitions on the two last-parameter caches
     for (int s = 0; s < 2; s++)
       if (!strcmp(o->name, s ? "cplx_to_tnx32_simple" : "reim_to_znx64_simple")) {
